@@ -202,3 +202,23 @@ pub fn udivmod4_by_two(
         rem.write(U256::from_words(0, lo & 1));
     }
 }
+
+// --- exact multiplier for the ONE constant the hex parser multiplies by (16) ------------------------------------
+fn times16(a: &U256, b: &U256) -> (U256, bool) {
+    assert!(*b.high() == 0 && *b.low() == 16, "MUL_SPECIALISED_FOR_16");
+    let (hi, lo) = (*a.high(), *a.low());
+    (U256::from_words((hi << 4) | (lo >> 124), lo << 4), (hi >> 124) != 0)
+}
+pub fn mul2_x16(r: &mut U256, a: &U256) {
+    let (v, _) = times16(r, a);
+    *r = v;
+}
+pub fn mul3_x16(res: &mut MaybeUninit<U256>, a: &U256, b: &U256) {
+    let (v, _) = times16(a, b);
+    res.write(v);
+}
+pub fn umulc_x16(res: &mut MaybeUninit<U256>, a: &U256, b: &U256) -> bool {
+    let (v, f) = times16(a, b);
+    res.write(v);
+    f
+}
